@@ -214,6 +214,9 @@ class Extents:
         return b"".join(out)
 
 
+WRITE_LOG: list = []  # every write/truncate attempt on any SparseFile of this process (read by C09)
+
+
 class BudgetExceeded(IOError):
     """Raised by SparseFile when the armed I/O budget is exceeded, or a single read is absurdly large."""
 
@@ -311,14 +314,17 @@ class SparseFile(Extents):
 
     def write(self, data):
         self.writes.append(("write", self._pos, len(data)))
+        WRITE_LOG.append(("write", getattr(self, "name", None), self._pos, len(data)))
         raise io.UnsupportedOperation("write")
 
     def writelines(self, lines):
         self.writes.append(("writelines", self._pos))
+        WRITE_LOG.append(("writelines", getattr(self, "name", None), self._pos))
         raise io.UnsupportedOperation("writelines")
 
     def truncate(self, size=None):
         self.writes.append(("truncate", size))
+        WRITE_LOG.append(("truncate", getattr(self, "name", None), size))
         raise io.UnsupportedOperation("truncate")
 
     def flush(self):
